@@ -2005,6 +2005,13 @@ class Executor:
                         return VList([build(prefix + [i], dims[1:]) for i in range(dims[0])], 'ndarray')
                     return build([], new_shape)
                 return PyFn(transpose, 'numpy.transpose')
+            if name == 'append':
+                def append(arr_, vals, *a, **k):
+                    if a or k or not isinstance(arr_, VList):
+                        return Tm('call:lib:numpy.append', arr_, vals)
+                    extra = list(vals.items) if isinstance(vals, VList) else [vals]
+                    return VList(list(arr_.items) + extra, 'ndarray')      # a new flattened array (1-D use only)
+                return PyFn(append, 'numpy.append')
             if name == 'prod':
                 def prod(x, *a, **k):
                     if isinstance(x, (tuple, list, VList)) and not a and not k:
@@ -2185,6 +2192,14 @@ class Executor:
                     return _m.comb(int(n), int(k)) if 0 <= k <= n else 0     # scipy.special.comb is 0 outside 0<=k<=n
                 return uf('comb', 2)(to_real(n), to_real(k))
             return PyFn(comb, 'scipy.special.comb')
+        if root == 'math' and name == 'factorial':
+            def fact(x):
+                x = exact(x)
+                if isinstance(x, (int, Fraction)) and int(x) == x and x >= 0:
+                    import math as _m
+                    return _m.factorial(int(x))
+                raise Unsupported('factorial of a symbolic value')
+            return PyFn(fact, 'math.factorial')
         if root == 'math' and name in ('ceil', 'floor'):
             def rnd(x, _n=name):
                 x = exact(x)
